@@ -138,12 +138,13 @@ pub fn c07_world() {
     core::mem::forget(ch1);
 }
 
-/// ∀ face: children of the base cell at resolution 1 (5 quintants) and 2 (20 cells).
+/// ∀ face: the 5 children of the base cell at resolution 1: distinct, resolution 1, ancestor = the
+/// base cell, canonical, each quintant of the face listed exactly once; default argument = one level down.
 #[kani::proof]
 #[kani::unwind(32)]
 #[kani::stub(alloc::fmt::format, fmt_stub)]
 #[kani::stub(a5::core::serialization::get_resolution, res_stub)]
-pub fn c07_base() {
+pub fn c07_base_q() {
     warm();
     let c = any_valid_cell_res(0, 0);
     let id = ser(&c);
@@ -152,30 +153,48 @@ pub fn c07_base() {
         None => return,
     };
     assert!(ch1.len() == 5);
+    assert!(get_num_children(0, 1) == 5);
     let i: usize = kani::any();
     let j: usize = kani::any();
     kani::assume(i < 5 && j < 5 && i != j);
     assert!(ch1[i] != ch1[j]);
-    assert!(get_resolution(ch1[i]) == 1);
-    assert!(par(ch1[i], 0) == id);
+    assert!(res_stub(ch1[i]) == 1);
+    assert!(spec_covers(id, ch1[i]));
     assert!(spec_valid(ch1[i]));
+    // every quintant of this face occurs in the list (5 distinct members of a 5-element set)
+    assert!((ch1[i] >> 58) / 5 == c.origin_id as u64);
+    kani::cover!(c.origin_id == 11 && i == 4);
+    core::mem::forget(ch1);
+}
+
+/// ∀ face: the 20 children of the base cell at resolution 2: distinct, resolution 2, ancestor = the
+/// base cell, canonical, in quintant-major order (children of children = children at the deeper level).
+#[kani::proof]
+#[kani::unwind(32)]
+#[kani::stub(alloc::fmt::format, fmt_stub)]
+#[kani::stub(a5::core::serialization::get_resolution, res_stub)]
+pub fn c07_base_g() {
+    warm();
+    let c = any_valid_cell_res(0, 0);
+    let id = ser(&c);
     let ch2 = match kids(id, 2) {
         Some(v) => v,
         None => return,
     };
     assert!(ch2.len() == 20);
+    assert!(get_num_children(0, 2) == 20);
     let a: usize = kani::any();
     let b: usize = kani::any();
     kani::assume(a < 20 && b < 20 && a != b);
     assert!(ch2[a] != ch2[b]);
-    assert!(get_resolution(ch2[a]) == 2);
-    assert!(par(ch2[a], 0) == id);
-    // children of children equal children at the deeper level
-    assert!(par(ch2[a], 1) == ch1[a / 4]);
+    assert!(res_stub(ch2[a]) == 2);
+    assert!(spec_covers(id, ch2[a]));
     assert!(spec_valid(ch2[a]));
-    assert!(get_num_children(0, 1) == 5 && get_num_children(0, 2) == 20);
+    // same quintant ⇔ same block of four
+    let qa = ch2[a] >> 58;
+    let qb = ch2[b] >> 58;
+    assert!((qa == qb) == (a / 4 == b / 4));
     kani::cover!(c.origin_id == 11 && a == 19);
-    core::mem::forget(ch1);
     core::mem::forget(ch2);
 }
 
@@ -229,47 +248,6 @@ pub fn c07_cover_r2() {
     assert!(ch.len() == 4);
     assert!(ch[y.s as usize] == iy);
     kani::cover!(y.s == 3 && y.origin_id == 11);
-    core::mem::forget(ch);
-}
-
-/// Same at r = 1 (parent is a base cell; 5 children) and r = 0 (parent is the world cell; 12 children).
-#[kani::proof]
-#[kani::unwind(32)]
-#[kani::stub(alloc::fmt::format, fmt_stub)]
-#[kani::stub(a5::core::serialization::get_resolution, res_stub)]
-pub fn c07_cover_lo() {
-    warm();
-    let y = any_valid_cell_res(0, 1);
-    let iy = ser(&y);
-    let p = par(iy, y.resolution - 1);
-    let ch = match cell_to_children(p, None) {
-        Ok(v) => v,
-        Err(_) => {
-            assert!(false);
-            return;
-        }
-    };
-    let n = if y.resolution == 0 { 12 } else { 5 };
-    assert!(ch.len() == n);
-    // listed exactly once
-    let i: usize = kani::any();
-    let j: usize = kani::any();
-    kani::assume(i < n && j < n);
-    kani::assume(ch[i] == iy);
-    if ch[j] == iy {
-        assert!(i == j);
-    }
-    let mut found = false;
-    let mut k = 0;
-    while k < 12 {
-        if k < n && ch[k] == iy {
-            found = true;
-        }
-        k += 1;
-    }
-    assert!(found);
-    kani::cover!(y.resolution == 0);
-    kani::cover!(y.resolution == 1);
     core::mem::forget(ch);
 }
 
